@@ -84,7 +84,9 @@ def check(sd: Path, tiers: tuple[str, ...] = ("quick", "thorough"), props: list[
         if rc != 0:
             row["error"] = "patch does not apply: " + out[-300:]
             return row
-        for prop in props or [meta["property"]]:
+        # "judged_under" in meta.json: the change was written against property X but, read against the statements, it is a violation of
+        # property Y only (the reason is recorded next to it); it is then Y's check that has to catch it
+        for prop in props or meta.get("judged_under") or [meta["property"]]:
             for tier in tiers:
                 t0 = time.time()
                 r = subprocess.run([str(ROOT / "check"), prop, "--tier", tier], capture_output=True, text=True,
